@@ -2,7 +2,8 @@
    built them.  Statements only. *)
 From Coq Require Import List NArith Bool.
 From SNT Require Import Base.Outcome Automata.Regex Automata.NFA Automata.Build Automata.Compile
-  Automata.BuildLeaves Automata.BuildProofs.
+  Automata.BuildLeaves Automata.BuildProofs Automata.CompileSpec Automata.CompileProofs Automata.BuildKeys
+  Automata.C15Main.
 Import ListNotations.
 Local Open Scope N_scope.
 
@@ -18,6 +19,63 @@ Theorem C15_build_wf : forall e : regex, wf (build e) /\ start (build e) = 0%nat
 Proof. intros e. split; [apply build_wf|apply build_start]. Qed.
 
 Check C15_build : forall (e : regex) (s : list N), accepts (build e) s <-> matches e s.
+
+(* NFA::compile and DFA stepping, for ANY NFA whose edge lists are maps (keys_ok;
+   true of every built NFA, C15_build_keys): whenever compile returns (it is
+   modelled with fuel), stepping the DFA through any byte string never panics
+   and
+   - reports a dead transition (None) exactly when no NFA state is reachable
+     by the string, otherwise ends in a state k such that
+   - k is accepting iff the NFA's stop state is reachable by the string,
+   - the tags of k are exactly the tags of the NFA states reachable by it,
+   - k is terminal only if every byte has no transition from k, and then no
+     extension of the string reaches any NFA state.
+   RS n s z : NFA state z is reachable from the start state by s. *)
+Theorem C15_compile : forall (fuel cf : nat) (n : nfa) (d : dfa),
+  keys_ok n -> compile fuel cf n = Ok d ->
+  forall s, bytes s ->
+    exists r, transition_many d (dstart d) s = Ok r /\
+      match r with
+      | None => forall z, ~ RS n s z
+      | Some k =>
+          exists i, info d k = Ok i /\
+            (exists z, RS n s z) /\
+            (accepting i = true <-> RS n s (stop n)) /\
+            (forall t, In t (dtags i) <-> exists q, RS n s q /\ has_tag n q t) /\
+            (terminal i = true ->
+               (forall c, (c < 256)%N -> transition d k c = Ok None) /\
+               (forall c w z, ~ RS n (s ++ c :: w) z))
+      end.
+Proof. exact compile_correct. Qed.
+
+Theorem C15_build_keys : forall e : regex, keys_ok (build e).
+Proof. exact build_keys. Qed.
+
+(* The property: the DFA compiled from the NFA built for any expression accepts a
+   byte string iff the expression matches it; DFA::matches returns (no panic). *)
+Theorem C15_main : forall (e : regex) (fuel cf : nat) (d : dfa),
+  compile fuel cf (build e) = Ok d ->
+  forall s, bytes s ->
+    exists b, dfa_matches d s = Ok b /\ (b = true <-> matches e s).
+Proof. exact main_matches. Qed.
+
+(* terminal only if no byte can extend the match; a dead transition only if no
+   extension can match *)
+Theorem C15_terminal_dead : forall (e : regex) (fuel cf : nat) (d : dfa),
+  compile fuel cf (build e) = Ok d ->
+  forall s, bytes s ->
+    exists r, transition_many d (dstart d) s = Ok r /\
+      match r with
+      | None => forall w, ~ matches e (s ++ w)
+      | Some k => exists i, info d k = Ok i /\
+                    (accepting i = true <-> matches e s) /\
+                    (terminal i = true -> forall c w, ~ matches e (s ++ c :: w))
+      end.
+Proof. exact main_terminal_dead. Qed.
+
+Check C15_main : forall (e : regex) (fuel cf : nat) (d : dfa),
+  compile fuel cf (build e) = Ok d ->
+  forall s, bytes s -> exists b, dfa_matches d s = Ok b /\ (b = true <-> matches e s).
 
 (* the in-place `optional` of the original code is unsound: (a+ b)? accepts "a" *)
 Theorem C15_optional_inplace_refuted :
